@@ -305,6 +305,74 @@ func checkC12(c *Ctx) {
 		}
 	}
 
+	// ---- C12-SEEN: a container printer marks the container as seen while its elements are printed (C01-REC) and
+	// forgets it afterwards, so that only a container met inside itself prints as [...]. If one exit of the printer
+	// skips the forgetting, the container stays marked for the rest of the print: the same (acyclic) array met a
+	// second time, e.g. one empty array shared by two fields, prints as [...] and no longer reads back.
+	{
+		setSeen, unsee := c.fn("PrintState.SetSeen"), c.fn("PrintState.Unsee")
+		nP := 0
+		if setSeen != nil && unsee != nil {
+			for _, f := range c.zygoFuncs() {
+				if f.Parent() != nil {
+					continue
+				}
+				sets := callsOf(f, setSeen)
+				if len(sets) == 0 {
+					continue
+				}
+				// does this printer forget at all? (dumps of scopes and stacks keep their marks on purpose)
+				deferred := false
+				var explicit []ssa.Instruction
+				for _, g := range withClosures(f) {
+					eachInstr(g, func(b *ssa.BasicBlock, i int, in ssa.Instruction) {
+						switch x := in.(type) {
+						case *ssa.Defer:
+							if x.Call.StaticCallee() == unsee {
+								deferred = true
+							}
+						case *ssa.Call:
+							if x.Call.StaticCallee() == unsee && g == f {
+								explicit = append(explicit, in)
+							}
+						}
+					})
+				}
+				if !deferred && len(explicit) == 0 {
+					continue
+				}
+				nP++
+				okAll := true
+				var at token.Pos
+				if !deferred {
+					unseeBlocks := map[*ssa.BasicBlock]bool{}
+					for _, e := range explicit {
+						unseeBlocks[e.Block()] = true
+					}
+					for _, st := range sets {
+						reach := reachableAvoiding(st.Block(), func(b *ssa.BasicBlock) bool { return unseeBlocks[b] && b != st.Block() })
+						for b := range reach {
+							if unseeBlocks[b] {
+								continue
+							}
+							for _, in := range b.Instrs {
+								if r, ok := in.(*ssa.Return); ok {
+									okAll, at = false, r.Pos()
+								}
+							}
+						}
+					}
+				}
+				c.check(okAll, "C12-SEEN", fnName(f), "container forgotten on every exit of its printer", orPos(at, f.Pos()),
+					"the mark set for the container is removed on every way out (deferred, or before each return)",
+					"the printer marks the container as seen but one of its exits returns without forgetting it: the container stays marked for the rest of the print, so a second occurrence of the same array or hash (not a cycle) prints as [...] / {...} and the printed form no longer reads back as the value")
+			}
+		}
+		if nP < 2 {
+			c.undecided("C12-SEEN", "printers", "mark and forget", token.NoPos, fmt.Sprintf("only %d printers that mark and forget a container found (array, hash and field printers confirmed by reading)", nP))
+		}
+	}
+
 	// ---- C12-NUM
 	c.checkTokenArms()
 
